@@ -90,6 +90,14 @@ def check_one(case, rec):
     # permutation invariance and injective relabelling
     perm = shuffle_det(sample, case.get("salt", 1))
     _same("pc-permutation", call("pc", pyrepseq.pc, contain(perm, cont)), want, "permuted sample")
+    # the same container object, edited in place, must be counted afresh
+    if cont in ("list", "ndarray") and len(sample) >= 3:
+        obj = contain(sample, cont)
+        first = call("pc", pyrepseq.pc, obj)
+        obj[0] = obj[1]
+        obj[2] = obj[1]
+        edited = [sample[1], sample[1], sample[1]] + list(sample[3:])
+        _same("pc-after-inplace-edit", call("pc", pyrepseq.pc, obj), O.pc_exact(edited), "sample object edited in place between two calls")
     relabel = realise([(-7 * v + 3) for v in labels], typ) if typ != "str" else [f"w{v}x" for v in labels]
     _same("pc-relabel", call("pc", pyrepseq.pc, contain(relabel, cont)), want, "relabelled sample")
 
@@ -295,6 +303,12 @@ def two_case(draw, tier="quick"):
     nvals = draw(st.integers(1, 8))
     a = draw(st.lists(st.integers(0, nvals), min_size=1, max_size=60))
     b = draw(st.lists(st.integers(0, nvals + 2), min_size=1, max_size=60))
+    if draw(st.integers(0, 3)) == 0:
+        # a second sample far larger than the first has distinct values (and the other way round)
+        a = a[: draw(st.integers(1, 3))]
+        b = (b * 40)[: draw(st.integers(100, 400))]
+        if draw(st.booleans()):
+            a, b = b, a
     return {"a": a, "b": b, "type": draw(st.sampled_from(["str", "int", "float"])),
             "container": draw(st.sampled_from(["list", "ndarray", "series"]))}
 
